@@ -203,3 +203,16 @@ def replay(ctx, data):
     print("code :", c, "\nmodel:", m, "\nref  :", r)
     if c != m or c != r:
         ctx.violation("replayed case still disagrees", data["replay"])
+
+
+
+# ----------------------------------------------------------------------------------------------- source tie (DESIGN §4.2)
+# the definitions of Gen/DecisionsLib.v this property's Props file ties to the model (`*_generated_eq_model`): when
+# tools/gen/decisions_lib.py could not translate the current source text the tie is broken and reported
+GEN_LIB_TARGETS = ['is_line_by_line_fast']
+_run_checks = run
+
+
+def run(ctx):
+    _run_checks(ctx)
+    vlib.report_gen_drift(ctx, "decisions_lib", GEN_LIB_TARGETS, bool(ctx.violations))
